@@ -36,9 +36,9 @@ full; nothing is `_partial`.
    determines `name`, `Hoist.suffix_digits_unique`), each label statement / entry label is counted once
    (`count_scriptNames_le`).  The two hypotheses are what the counting argument
    `count_programLabels_le` needs: census ≤ declared + sub-labels + texts, with multiplicity.
-   (Two sub-cases of (a)/(b) are in fact implied by acceptance — `renderStatements` rejects a label
-   statement that equals a chunk label of its own script or a text name — the predicates are kept uniform
-   so that they are decidable functions of the program alone.)
+   Three sub-cases of (a)/(b) are in fact implied by acceptance — `renderStatements` rejects a label
+   statement that equals a chunk label of its own script or a text name: `accepted_label_statements` —; the
+   predicates are kept uniform so that they are decidable functions of the program alone.
 
 3. `program_refs_defined`: every label named by a generated `goto` / conditional jump / `case` line
    (`C04.refOf`) of the output is in `programLabels o p` (`closed_emitProgram`: it is even defined among the
@@ -138,6 +138,45 @@ duplicate-free census. -/
 theorem nodup_of_parts (o : Opts) (p : Program) (ha : NamesDistinct p) (hb : NoImitation o p) :
     (programLabels o p).Nodup :=
   programLabels_nodup_of o p ha hb
+
+/-- What acceptance already guarantees (the only label checks of the emitter, `renderStatements`): a
+label statement of an accepted script is not a text name, not the script's own name and not one of the
+script's own sub-labels.  So these sub-cases of (a) / (b) hold for every accepted program; all other
+clashes — between statements, or between a generated sub-label and a text / movement / mart / mapscripts /
+other script's name — are NOT checked (F23, `imit_*`). -/
+theorem accepted_label_statements (o : Opts) (p : Program) (ls : List Line) (h : emitProgram o p = .ok ls)
+    (s : Script) (hs : s ∈ scriptsOf p) :
+    ∀ n ∈ userLabelsOf s, n ∉ textNames p ∧ n ≠ s.name ∧ n ∉ subLabelsOf o p.patches s := by
+  obtain ⟨l, hl, _⟩ := script_accepted o p ls h s hs
+  intro n hn
+  obtain ⟨h1, h2⟩ := accepted_label_statements_fresh o p.patches _ s l hl n hn
+  refine ⟨h1, ?_, ?_⟩
+  · intro e
+    unfold userLabelsOf at hn
+    cases hc : scriptChunks s.body with
+    | error e' => rw [hc] at hn; cases hn
+    | ok G =>
+      obtain ⟨_, h0⟩ := C05.scriptChunks_ids s.body G hc
+      obtain ⟨c, hcG, hc0⟩ := List.mem_map.1 h0
+      exact h2 G hc c hcG (by simp [chunkLabel, hc0, e])
+  · intro hmem
+    unfold subLabelsOf at hmem
+    cases hc : scriptChunks s.body with
+    | error e' => rw [hc] at hmem; cases hmem
+    | ok G =>
+      rw [hc] at hmem
+      simp only at hmem
+      cases ho : C05.chunkOrder o G with
+      | error e' => rw [ho] at hmem; cases hmem
+      | ok order =>
+        rw [ho] at hmem
+        simp only at hmem
+        obtain ⟨d, hd, rfl⟩ := List.mem_map.1 hmem
+        obtain ⟨hdo, hdf⟩ := List.mem_filter.1 hd
+        simp only [Bool.and_eq_true, bne_iff_ne, ne_eq] at hdf
+        obtain ⟨hperm, _, _⟩ := C05.script_order_perm o s G order hc ho
+        obtain ⟨c, hcG, hcd⟩ := List.mem_map.1 (hperm.mem_iff.1 hdo)
+        exact h2 G hc c hcG (by simp [chunkLabel, jumpLabel, hcd, hdf.1])
 
 /-- `n` reads `<name>_<digits>`. -/
 def isSubLabelOf (name n : String) : Bool :=
@@ -367,11 +406,20 @@ theorem demo_census : programLabelDefs oN demoProg =
 def demoLines : List Line := match emitProgram oN demoProg with | .ok ls => ls | .error _ => []
 theorem demo_emit : emitProgram oN demoProg = .ok demoLines := rfl
 
-set_option maxRecDepth 8000 in
-/-- the output, rendered -/
-example : String.join (demoLines.map Line.render) =
-    "Main::\n\tlock\n\tgoto Main_3\n\nMain_1:\nDone::\n\trelease\n\treturn\n\nMain_2:\n\tmsgbox Main_Text_0, MSGBOX_DEFAULT\nInner:\n\tgoto Main_1\n\nMain_3:\n\tgoto_if_set F, Main_2\n\tgoto Main_1\n\n\nx\n\nAux:\n\tapplymovement 2, Walk\n\treturn\n\n\nWalk:\n\twalk_up\n\tstep_end\n\n\t.align 2\nShop:\n\t.2byte ITEM_A\n\t.2byte ITEM_NONE\n\nM::\n\tmap_script ON_LOAD, M_ON_LOAD\n\tmap_script ON_RESUME, Elsewhere\n\tmap_script ON_FRAME, M_ON_FRAME\n\t.byte 0\n\nM_ON_LOAD:\n\tnop\n\treturn\n\nM_ON_FRAME:\n\tmap_script_2 VAR_X, 1, Aux\n\t.2byte 0\n\n\nMain_Text_0:\n\t.string \"hi$\"\n\nT::\n\t.string \"x$\"\n" := by
-  rfl
+/-- label lines, generated references and map-script lines -/
+def isSkel (l : Line) : Bool :=
+  (labelOf l).isSome || (C04.refOf l).isSome ||
+    match l with | .mapScript _ _ => true | .mapScript2 _ _ _ => true | _ => false
+
+/-- the skeleton of the output (`demoLines` renders to `Main::\n\tlock\n\tgoto Main_3\n\nMain_1:\nDone::\n …`) -/
+example : demoLines.filter isSkel =
+    [.labelDef "Main" true, .goto_ "Main_3", .labelDef "Main_1" false, .labelDef "Done" true,
+     .labelDef "Main_2" false, .labelDef "Inner" false, .goto_ "Main_1", .labelDef "Main_3" false,
+     .gotoIfSet "F" "Main_2", .goto_ "Main_1", .labelDef "Aux" false, .labelDef "Walk" false,
+     .labelDef "Shop" false, .labelDef "M" true, .mapScript "ON_LOAD" "M_ON_LOAD",
+     .mapScript "ON_RESUME" "Elsewhere", .mapScript "ON_FRAME" "M_ON_FRAME", .labelDef "M_ON_LOAD" false,
+     .labelDef "M_ON_FRAME" false, .mapScript2 "VAR_X" "1" "Aux", .labelDef "Main_Text_0" false,
+     .labelDef "T" true] := by decide
 
 example : labelsOf demoLines = programLabelDefs oN demoProg := labels_of_program oN demoProg _ demo_emit
 
@@ -411,10 +459,43 @@ example := mapscript_refs_defined oN demoProg _ demo_emit demoMS (by simp [demoP
 example : InlineNamed C08b.exStmt :=
   inlineNamed_of_entries C08b.exStmt C08b.exK C08b.exEntries rfl rfl
 
-/-- `patch_refs_defined` / `program_closed` on the parsed program of C06c's example (`C06c.exToks`). -/
-example : ∃ p, parseTokens {} C06c.exToks = .ok p ∧ ∀ o, ∀ q ∈ p.patches, q.2 ∈ programLabels o p := by
+example := accepted_label_statements oN demoProg _ demo_emit sMain
+  (by simp [scriptsOf, demoProg, topScripts, optScripts, demoMS])
+example : userLabelsOf sMain = ["Inner", "Done"] := by decide
+
+/-! `patch_refs_defined` / `program_closed` on the parsed program of C06c's example (`C06c.exToks`: two
+scripts sharing texts and a `moves()`, a `text` statement). -/
+
+def exP : Program := match parseTokens {} C06c.exToks with | .ok p => p | .error _ => {}
+
+theorem exP_parsed : parseTokens {} C06c.exToks = .ok exP := by
   obtain ⟨p, hp⟩ := C06c.ex_parses
-  exact ⟨p, hp, fun o => patch_refs_defined {} C06c.exToks p hp o⟩
+  unfold exP
+  rw [hp]
+
+def exLs : List Line := match emitProgram oN exP with | .ok ls => ls | .error _ => []
+
+theorem exP_accepted : emitProgram oN exP = .ok exLs := by
+  have key : (match emitProgram oN exP with | .ok _ => true | .error _ => false) = true := by
+    decide +kernel
+  unfold exLs
+  cases h : emitProgram oN exP with
+  | error e => rw [h] at key; cases key
+  | ok ls => rfl
+
+theorem exP_census : programLabels oN exP = ["A", "B", "A_Movement_0", "A_Text_0", "A_Text_1", "B_Text_0", "T"] := by
+  decide +kernel
+theorem exP_patches : exP.patches.map (·.2) =
+    ["A_Text_0", "A_Text_1", "A_Movement_0", "A_Text_0", "B_Text_0", "A_Text_1", "A_Movement_0"] := by
+  decide +kernel
+theorem exP_distinct : NamesDistinct exP := by decide +kernel
+theorem exP_noImitation : NoImitation oN exP := by decide +kernel
+
+example : ∀ q ∈ exP.patches, q.2 ∈ programLabels oN exP := patch_refs_defined {} C06c.exToks exP exP_parsed oN
+
+example : (∀ n g, Line.labelDef n g ∈ exLs → defCount exLs n = 1) ∧
+    (∀ x ∈ C04.refsOf exLs, defCount exLs x = 1) ∧ (∀ q ∈ exP.patches, defCount exLs q.2 = 1) :=
+  program_closed {} C06c.exToks exP exP_parsed oN exLs exP_accepted exP_distinct exP_noImitation
 
 /-! ### F23: a duplicated top-level name is accepted -/
 
@@ -427,6 +508,22 @@ theorem f23_census : programLabels oN f23 = ["A", "A"] := by decide
 theorem f23_duplicate : ¬ (programLabels oN f23).Nodup := by decide
 /-- (b) holds: the duplicate is due to (a) alone. -/
 theorem f23_noImitation : NoImitation oN f23 := by decide
+
+def mkTok (t : TT) (l : String) : Tok := { type := t, lit := l }
+
+/-- The census of the output compiled from a token list (`none` if rejected). -/
+def compiledLabels (toks : List Tok) : Option (List String) :=
+  match parseTokens {} toks with
+  | .error _ => none
+  | .ok p => match emitProgram oN p with
+    | .ok ls => some ((labelsOf ls).map (·.1))
+    | .error _ => none
+
+/-- F23 through parser and emitter: the tokens of `script A {} script A {}` compile, `A` is defined twice. -/
+theorem f23_compiled :
+    compiledLabels [mkTok .SCRIPT "script", mkTok .IDENT "A", mkTok .LBRACE "{", mkTok .RBRACE "}",
+                    mkTok .SCRIPT "script", mkTok .IDENT "A", mkTok .LBRACE "{", mkTok .RBRACE "}", mkTok .EOF ""] =
+      some ["A", "A"] := by decide +kernel
 
 /-! ### a generated sub-label equal to a generated text label is accepted -/
 
@@ -449,9 +546,23 @@ theorem imit_census : programLabels oN imit = ["A", "A_Text", "A_Text_1", "A_Tex
   decide
 theorem imit_duplicate : ¬ (programLabels oN imit).Nodup := by decide
 
+/-- The same through parser and emitter: the tokens of
+`script A { msgbox("a") msgbox("b") }  script A_Text { if (flag(F)) { lock } release }` compile, and the output
+defines `A_Text_1` twice (as the Go binary does: `A_Text_1:` before `release` and before `.string "b$"`). -/
+theorem imit_compiled :
+    compiledLabels
+      [mkTok .SCRIPT "script", mkTok .IDENT "A", mkTok .LBRACE "{",
+       mkTok .IDENT "msgbox", mkTok .LPAREN "(", mkTok .STRING "a", mkTok .RPAREN ")",
+       mkTok .IDENT "msgbox", mkTok .LPAREN "(", mkTok .STRING "b", mkTok .RPAREN ")", mkTok .RBRACE "}",
+       mkTok .SCRIPT "script", mkTok .IDENT "A_Text", mkTok .LBRACE "{",
+       mkTok .IF "if", mkTok .LPAREN "(", mkTok .FLAG "flag", mkTok .LPAREN "(", mkTok .IDENT "F", mkTok .RPAREN ")", mkTok .RPAREN ")",
+       mkTok .LBRACE "{", mkTok .IDENT "lock", mkTok .RBRACE "}", mkTok .IDENT "release", mkTok .RBRACE "}", mkTok .EOF ""] =
+      some ["A", "A_Text", "A_Text_1", "A_Text_2", "A_Text_3", "A_Text_0", "A_Text_1"] := by decide +kernel
+
 #print axioms labels_of_program
 #print axioms program_labels_defined_once
 #print axioms nodup_of_parts
+#print axioms accepted_label_statements
 #print axioms noImitation_of_syntactic
 #print axioms program_refs_defined
 #print axioms mapscript_refs_defined
